@@ -33,6 +33,7 @@ var (
 	vExc      = map[string]bool{}
 	vWild     = map[string]bool{}
 	vAllLabel []string
+	vNodes    []string // every trie node path (domain order), rules and interior nodes alike, in first-seen order
 	vDumped   bool
 )
 
@@ -53,7 +54,10 @@ func vInit() {
 		ls := strings.Split(s, ".")
 		for j := len(ls) - 1; j >= 0; j-- {
 			vr.labels = append(vr.labels, ls[j])
-			vPrefix[strings.Join(vr.labels, " ")] = true
+			if key := strings.Join(vr.labels, " "); !vPrefix[key] {
+				vPrefix[key] = true
+				vNodes = append(vNodes, strings.Join(ls[j:], "."))
+			}
 			if !seen[ls[j]] {
 				seen[ls[j]] = true
 				vAllLabel = append(vAllLabel, ls[j])
@@ -157,6 +161,17 @@ func randLabel(r *vu.Rng) string {
 
 func gen(r *vu.Rng, i int) []string {
 	vInit()
+	// The first len(vNodes) cases enumerate every trie node path itself (rules AND interior nodes that
+	// are not rules), alone and with one extra label: the walk ends exactly on that node.
+	if i < len(vNodes) {
+		d := vNodes[i]
+		x := randLabel(r) + "." + d
+		if strings.ContainsAny(x, " \t\r\n") {
+			x = "x." + d
+		}
+		return []string{"ps d:" + d, "etld1 d:" + d, "ps d:" + x, "etld1 d:" + x}
+	}
+	i -= len(vNodes)
 	var d string
 	ri := i % len(rules)
 	if i >= 2*len(rules) {
